@@ -32,28 +32,26 @@ Proof.
   destruct (Nat.ltb_spec f m) as [B|B]; [rewrite twoway_low_sym; apply low2|].
   assert (f = m) by lia. subst m. rewrite <- low2. symmetry. apply twoway_low_same.
 Qed.
-Theorem threeway_entry_multilocus geno r f m : f <> m ->
+(** three-way, four-way, dihybrid: every entry, repeated last parents / selfs included *)
+Theorem threeway_entry_multilocus geno r f m :
   threeway_entry S geno t1 t2 r f m == covL L (EL_three ps k (al (row geno r)) (al (row geno f)) (al (row geno m))) U1 U2.
 Proof.
-  intros Hne. unfold threeway_entry, mirror.
-  destruct (Nat.ltb_spec m f) as [A|A]; [apply low3|].
-  destruct (Nat.ltb_spec f m) as [B|B]; [rewrite threeway_low_sym; apply low3|lia].
+  unfold threeway_entry, mirror_incl.
+  destruct (Nat.leb_spec m f) as [A|A]; [apply low3 | rewrite threeway_low_sym; apply low3].
 Qed.
-Theorem fourway_entry_multilocus geno f2 m2 f1 m1 : f1 <> m1 ->
+Theorem fourway_entry_multilocus geno f2 m2 f1 m1 :
   fourway_entry S geno t1 t2 f2 m2 f1 m1 ==
   covL L (EL_four ps k (al (row geno f2)) (al (row geno m2)) (al (row geno f1)) (al (row geno m1))) U1 U2.
 Proof.
-  intros Hne. unfold fourway_entry, mirror.
-  destruct (Nat.ltb_spec m1 f1) as [A|A]; [apply low4|].
-  destruct (Nat.ltb_spec f1 m1) as [B|B]; [rewrite quad_low_sym34; apply low4|lia].
+  unfold fourway_entry, mirror_incl.
+  destruct (Nat.leb_spec m1 f1) as [A|A]; [apply low4 | rewrite quad_low_sym34; apply low4].
 Qed.
-Theorem dihybrid_entry_multilocus geno geno1 f m : f <> m ->
+Theorem dihybrid_entry_multilocus geno geno1 f m :
   dihybrid_entry S geno geno1 t1 t2 f m ==
   covL L (EL_four ps k (al (row geno1 f)) (al (row geno f)) (al (row geno1 m)) (al (row geno m))) U1 U2.
 Proof.
-  intros Hne. unfold dihybrid_entry, mirror.
-  destruct (Nat.ltb_spec m f) as [A|A]; [apply low4|].
-  destruct (Nat.ltb_spec f m) as [B|B]; [rewrite quad_low_sym_pairs; apply low4|lia].
+  unfold dihybrid_entry, mirror_incl.
+  destruct (Nat.leb_spec m f) as [A|A]; [apply low4 | rewrite quad_low_sym_pairs; apply low4].
 Qed.
 End Top.
 
